@@ -497,6 +497,9 @@ func (q *Seq) Compare(r *SeqRealm, what string, exp []Exp, pending *MCall) {
 			if _, taken := b.pubRev[n]; taken {
 				continue
 			}
+			if tp, ok := wamp.AsString(ev.Details["topic"]); ok && strings.Contains(e.Text, "topic:") && !strings.Contains(e.Text, fmt.Sprintf("topic:%q", tp)) {
+				continue // same payload published to another topic (two testaments of one session, say)
+			}
 			if strings.HasSuffix(e.Text, payload(ev.Arguments, ev.ArgumentsKw)+")") {
 				b.pub[ev.Publication] = n
 				b.pubRev[n] = ev.Publication
